@@ -9,6 +9,7 @@ import ComposeVerif.Model.Validate
 import ComposeVerif.Model.Paths
 import ComposeVerif.Model.Secrets
 import ComposeVerif.Model.Schema
+import ComposeVerif.Model.Reset
 import ComposeVerif.Gen.Schema
 import ComposeVerif.Gen.Tables
 /-!
@@ -209,15 +210,44 @@ def resolveEnvironment (env : List (String × String)) (dict : KVs) : KVs :=
 def interpStage (c : Cfg) (cfg : KVs) : Out KVs :=
   if c.opts.skipInterpolation then .ok cfg else ofInterp (Interp.interpolate c.interp cfg)
 
-/-- `processRawYaml(raw)` with `SkipExtends`, `SkipInclude`, no post-processor: one document merged into `dict` -/
-def processDoc (c : Cfg) (dict : Val) (cfg : KVs) : Out Val :=
-  (interpStage c cfg).bind fun cfg =>
+/-- `processRawYaml` from `override.Merge(dict, cfg)` on -/
+def mergeStages (c : Cfg) (dict : Val) (cfg : KVs) : Out Val :=
   (ofMerge "merge" (Merge.merge dict (.map cfg))).bind fun dict =>
   (ofMerge "unicity" (Unicity.enforceTop dict)).bind fun dict =>
   (schemaStage c.opts dict).bind fun dict =>
   (ofShort (Short.canonical c.opts.skipInterpolation dict)).bind fun dict =>
   (omitEmpty c.omitPats dict).bind fun dict =>
   ofMerge "unicity2" (Unicity.enforceTop dict)
+
+/-- `processRawYaml(raw)` with `SkipExtends`, `SkipInclude`, no post-processor: one document merged into `dict` -/
+def processDoc (c : Cfg) (dict : Val) (cfg : KVs) : Out Val :=
+  (interpStage c cfg).bind (mergeStages c dict)
+
+/-- `processRawYaml(raw, processor)` for a document read from YAML text: `decoder.Decode(&ResetProcessor{…})` gives
+the tree without its `!reset` nodes and the recorded paths (C04's `Reset.readDoc`); the tree is interpolated; the
+processor deletes the recorded paths from the model built so far (`processor.Apply(dict)`) *before* the merge -/
+def processNode (c : Cfg) (dict : Val) (n : Reset.YNode) : Out Val :=
+  match Reset.readDoc n with
+  | (.map cfg, paths) => (interpStage c cfg).bind (mergeStages c (Reset.applyNull paths dict TPath.root))
+  | _ => .err "toplevel"
+
+/-- the decode loop of `loadYamlFile` over the documents of one file -/
+def processNodes (c : Cfg) : Val → List Reset.YNode → Out Val
+  | dict, [] => .ok dict
+  | dict, n :: r =>
+    match processNode c dict n with
+    | .ok dict' => processNodes c dict' r
+    | .err e => .err e
+    | .panic s => .panic s
+
+/-- `for _, file := range config.ConfigFiles` when every file is YAML text (a file = its `---` documents) -/
+def processFiles (c : Cfg) : Val → List (List Reset.YNode) → Out Val
+  | dict, [] => .ok dict
+  | dict, f :: r =>
+    match processNodes c dict f with
+    | .ok dict' => processFiles c dict' r
+    | .err e => .err e
+    | .panic s => .panic s
 
 /-- the loop of `loadYamlModel` over `config.ConfigFiles` (each file one `Config` document) -/
 def processDocs (c : Cfg) : Val → List KVs → Out Val
@@ -264,6 +294,13 @@ def finishLoad (c : Cfg) (dict : KVs) : Out KVs :=
   else if c.projectName = "" then .err "name"
   else if c.opts.skipNormalization then .ok dict
   else ofC11 "normalize" (C11.normalize c.clean c.env (insert "name" (.str c.projectName) dict))
+
+/-- `loadYamlModel` / `load` for files given as YAML text -/
+def loadYamlModelY (c : Cfg) (files : List (List Reset.YNode)) : Out KVs :=
+  (processFiles c (.map []) files).bind (finishModel c)
+
+def loadY (c : Cfg) (files : List (List Reset.YNode)) : Out KVs :=
+  if files.isEmpty then .err "nofiles" else (loadYamlModelY c files).bind (finishLoad c)
 
 /-- `load` (and `loadModelWithContext`: at least one file) -/
 def load (c : Cfg) (docs : List KVs) : Out KVs :=
